@@ -395,7 +395,7 @@ HELPERS = {
 def run(rep, ctx):
     repo = ctx["repo"]
     _REPO[0] = repo
-    fn = [r"mp::[A-Za-z_0-9]+Converter(_MIP)?(_CRTP)?::(Convert[A-Za-z_0-9]*|IfNeedsConversion|Run)", r"mp::BasicFuncConstrCvt::.*",
+    fn = [r"mp::[A-Za-z_0-9]+Converter(_MIP)?(_CRTP)?::.*", r"mp::BasicFuncConstrCvt::.*",
           r"mp::ConstraintKeeper::(ConvertConstraint|ConvertAllFrom|MarkAsBridged)",
           r"mp::FlatConverter::(RunConversion|Convert|PropagateResultOfInitExpr|FixAsTrue|AddConstraint_AS_ROOT|AddConstraint|RedefineVariable)",
           r"mp::ConstraintPropagatorsDown::.*", r"mp::Context::.*", r"mp::ProblemFlattener::Convert"]
@@ -409,6 +409,9 @@ def run(rep, ctx):
     rule_A1(rep, funcs, F)
     rule_P1(rep, funcs)
     rule_D1(rep, funcs)
+    rule_K1(rep, funcs)
+    rule_M1(rep, funcs)
+    rule_P2(rep, funcs)
     return rep
 
 
@@ -789,3 +792,462 @@ def rule_D1(rep, funcs):
                  "%s: a constraint converted with an unset context is not given the mixed context: no direction is generated" % lab)
     if n < 20:
         raise AnalysisBroken("C01.D1: only %d context-using RunConversion instantiations" % n)
+
+
+# ---------------------------------------------------------------------------------------------------
+# affine normal form of small arithmetic expressions: {atom: coef} with atom '' for the constant
+# ---------------------------------------------------------------------------------------------------
+def affine(e, f=None, subst=None):
+    e = strip(e)
+    k = e["k"]
+    c = cv(e)
+    if c is not None and k not in ("DeclRefExpr",):
+        return {"": float(c)} if float(c) != 0 else {}
+    if k == "BinaryOperator" and e.get("op") in ("+", "-"):
+        a, b = affine(kids(e)[0], f, subst), affine(kids(e)[1], f, subst)
+        out = dict(a)
+        for t, v in b.items():
+            out[t] = out.get(t, 0.0) + (v if e["op"] == "+" else -v)
+        return {t: v for t, v in out.items() if v != 0}
+    if k == "UnaryOperator" and e.get("op") in ("-", "+"):
+        a = affine(kids(e)[0], f, subst)
+        return {t: (-v if e["op"] == "-" else v) for t, v in a.items()}
+    if k == "BinaryOperator" and e.get("op") == "*":
+        l, r = kids(e)
+        cl, cr = cv(l), cv(r)
+        if cl is not None:
+            return {t: v * float(cl) for t, v in affine(r, f, subst).items()}
+        if cr is not None:
+            return {t: v * float(cr) for t, v in affine(l, f, subst).items()}
+    if k == "DeclRefExpr" and subst and e.get("declId") in subst:
+        return affine(subst[e["declId"]], f, subst)
+    if k in ("CXXConstructExpr", "InitListExpr", "CXXFunctionalCastExpr") and len([x for x in kids(e) if x is not None]) == 1:
+        return affine([x for x in kids(e) if x is not None][0], f, subst)
+    return {nt(render(e)): 1.0}
+
+
+def aff_eq(a, b):
+    ks = set(a) | set(b)
+    return all(abs(a.get(t, 0.0) - b.get(t, 0.0)) < 1e-12 for t in ks)
+
+
+def local_inits(f):
+    return {v["declId"]: kids(v)[0] for v in f.walk() if v["k"] == "VarDecl" and kids(v) and v.get("declId")}
+
+
+def rule_K1(rep, funcs):
+    k1 = rep.rule("C01.K1", "TABLE", "conditional comparisons: output sense, epsilon and indicator value per input comparison and direction; equality: indicator / disjunction of strict sides", floor=30)
+    cvt = [f for f in funcs if f.qn.startswith("mp::Cond_LE_LT_GT_GE_Converter_MIP::")]
+    n = 0
+    for f in sorted(cvt, key=lambda g: g.full):
+        m = re.search(r"AlgConRhs<(-?[0-9]+)>>>::", f.full)
+        if not m:
+            continue
+        kin = int(m.group(1))
+        body = "Quad" if "QuadAndLinTerms" in f.full else "Lin"
+        sgn = 1 if kin > 0 else -1
+        if f.name in ("ConvertCtxPos", "ConvertCtxNeg"):
+            n += 1
+            pos = f.name == "ConvertCtxPos"
+            calls = [c for c in f.walk() if c["k"] == "CXXMemberCallExpr" and c.get("callee", "").endswith("::ConvertCondIneq")]
+            key = "ineq|%s|kind %d|%s" % (body, kin, "pos" if pos else "neg")
+            if len(calls) != 1:
+                k1.fail(key, short_loc(f.loc), "%d calls of ConvertCondIneq" % len(calls))
+                continue
+            c = calls[0]
+            mo = re.search(r"ConvertCondIneq<(-?[0-9]+)>$", c.get("calleeFull", ""))
+            ko = int(mo.group(1)) if mo else None
+            a = call_args(c)
+            val = cv(a[1])
+            inits = local_inits(f)
+            e = strip(a[2])
+            while e["k"] == "DeclRefExpr" and e.get("declId") in inits:
+                e = strip(inits[e["declId"]])
+            while e["k"] in ("ExprWithCleanups", "ParenExpr"):
+                e = strip(kids(e)[0])
+            # fold the compile-time conditional
+            while e["k"] == "ConditionalOperator" and cv(kids(e)[0]) is not None:
+                e = strip(kids(e)[1] if cv(kids(e)[0]) else kids(e)[2])
+            if cv(e) is not None:
+                eps = float(cv(e))
+                eps_sign = 0 if eps == 0 else None
+            else:
+                af = affine(e)
+                atoms = [t for t in af if t]
+                eps_sign = None
+                if len(atoms) == 1 and "ComparisonEps(" in atoms[0] and not af.get(""):
+                    eps_sign = 1 if af[atoms[0]] == 1.0 else (-1 if af[atoms[0]] == -1.0 else None)
+            strict = abs(kin) == 2
+            w_ko = sgn if pos else -sgn
+            w_val = 1 if pos else 0
+            w_eps = (w_ko if strict else 0) if pos else (0 if strict else w_ko)
+            k1.check(ko == w_ko and val == w_val and eps_sign == w_eps, key, short_loc(f.loc),
+                     "kind %d, %s: result==%d => body %s rhs %s" % (kin, "positive" if pos else "negative", w_val, "<=" if w_ko < 0 else ">=",
+                                                                     {0: "", 1: "+ eps", -1: "- eps"}[w_eps]),
+                     "kind %d (%s), %s context: result==%s => body %s rhs %s; the reference is result==%d => body %s rhs %s" %
+                     (kin, {-2: "<", -1: "<=", 1: ">=", 2: ">"}[kin], "positive" if pos else "negative", val, {-1: "<=", 1: ">=", None: "?"}[ko],
+                      {0: "", 1: "+ eps", -1: "- eps", None: "(unrecognised eps)"}[eps_sign], w_val, "<=" if w_ko < 0 else ">=", {0: "", 1: "+ eps", -1: "- eps"}[w_eps]))
+        elif f.name == "ConvertCondIneq":
+            mo = re.search(r"ConvertCondIneq<(-?[0-9]+)>$", f.full)
+            ko = int(mo.group(1))
+            key = "ineq-body|%s|kind %d|out %d" % (body, kin, ko)
+            adds = [c for c in f.walk() if c["k"] == "CXXMemberCallExpr" and c.get("callee", "").endswith("::AddConstraint")]
+            pn = {p["name"]: p["declId"] for p in f.params}
+            ok = len(adds) == 2
+            det = []
+            for c in adds:
+                t = (c.get("calleeFull") or "")
+                ind = "IndicatorConstraint<" in t
+                okt = ("AlgConRhs<%d>" % ko) in t
+                cons = [x for x in walk(c) if x["k"] in ("CXXConstructExpr", "CXXTemporaryObjectExpr", "InitListExpr", "CXXFunctionalCastExpr")]
+                rhs_ok = any(aff_eq(affine(z), {"con.rhs()": 1.0, "eps": 1.0}) for x in cons for z in kids(x) if z is not None and z.get("ct") == "double")
+                fa = nfacts(f, c)
+                if ind:
+                    args_ok = any(x["k"] in ("CXXConstructExpr", "CXXTemporaryObjectExpr") and "IndicatorConstraint" in (x.get("ct") or "") and len(kids(x)) >= 3 and
+                                  nt(render(kids(x)[0])) == "res" and nt(render(kids(x)[1])) == "value" for x in cons)
+                    g_ok = ("GetMC().is_fixed(res)", False) in fa and ("con.empty()", False) in fa
+                else:
+                    args_ok = True
+                    g_ok = ("GetMC().is_fixed(res)", True) in fa and ("value==GetMC().fixed_value(res)", True) in fa
+                det.append((ind, okt, rhs_ok, args_ok, g_ok))
+                ok = ok and okt and rhs_ok and args_ok and g_ok
+            nb = [c for c in f.walk() if c["k"] == "CXXMemberCallExpr" and c.get("callee", "").endswith("::NarrowVarBounds")]
+            ok_e = len(nb) == 1 and [nt(render(x)) for x in call_args(nb[0])] == ["res", "!value", "!value"]
+            if ok_e:
+                fa = nfacts(f, nb[0])
+                okc = False
+                for cid, pol in f.cfg.facts_at(nb[0]):
+                    cn = strip(f.nodes[cid])
+                    if pol and cn["k"] == "BinaryOperator" and cn.get("op") == ">" and cv(kids(cn)[1]) == 0:
+                        okc = aff_eq(affine(kids(cn)[0]), {"con.rhs()": float(ko), "eps": float(ko)})
+                ok_e = ("con.empty()", True) in fa and okc
+            k1.check(ok and ok_e, key, short_loc(f.loc), "result==value => body (kind %d) rhs+eps as indicator, or as static constraint when the result is fixed to value; "
+                     "empty body: result fixed to !value when 0 (kind) rhs+eps is false" % ko, "constraints %s, empty-body rule ok=%s" % (det, ok_e))
+    if n < 16:
+        raise AnalysisBroken("C01.K1: only %d conditional comparison conversions" % n)
+    # equality
+    for f in sorted([g for g in funcs if g.qn.startswith("mp::CondEQConverter_MIP::")], key=lambda g: g.full):
+        body = "Quad" if "QuadAndLinTerms" in f.full else "Lin"
+        if f.name == "ConvertCtxPos":
+            adds = [c for c in f.walk() if c["k"] == "CXXMemberCallExpr" and c.get("callee", "").endswith("::AddConstraint")]
+            ind = [c for c in adds if "IndicatorConstraint<" in (c.get("calleeFull") or "")]
+            ok = len(ind) == 1 and "AlgConRhs<0>" in ind[0].get("calleeFull", "")
+            if ok:
+                x = [y for y in walk(ind[0]) if y["k"] in ("CXXConstructExpr", "CXXTemporaryObjectExpr") and "IndicatorConstraint" in (y.get("ct") or "") and len(kids(y)) >= 3]
+                ok = bool(x) and [nt(render(z)) for z in kids(x[0])[:3]] == ["res", "1", "con"]
+                fa = nfacts(f, ind[0])
+                ok = ok and ("GetMC().is_fixed(res)", False) in fa
+            st = [c for c in adds if c not in ind]
+            ok2 = len(st) == 1 and nt(render(call_args(st[0])[0])) == "con" and ("GetMC().fixed_value(res)", True) in nfacts(f, st[0])
+            k1.check(ok and ok2, "eq|%s|pos" % body, short_loc(f.loc), "positive: result==1 => body == rhs (static when the result is fixed to 1)")
+        if f.name == "ConvertCtxNeg":
+            adds = [c for c in f.walk() if c["k"] == "CXXMemberCallExpr" and c.get("callee", "").endswith("::AddConstraint")]
+            ge = [c for c in adds if "AlgConRhs<1>" in c.get("calleeFull", "") and "IndicatorConstraint" not in c.get("calleeFull", "")]
+            lo = [c for c in adds if "IndicatorConstraint<mp::AlgebraicConstraint<" in c.get("calleeFull", "") and "AlgConRhs<-1>" in c.get("calleeFull", "")]
+            hi = [c for c in adds if "IndicatorConstraint<mp::AlgebraicConstraint<" in c.get("calleeFull", "") and "AlgConRhs<1>" in c.get("calleeFull", "")]
+            ok = len(adds) == 3 and len(ge) == 1 and len(lo) == 1 and len(hi) == 1
+            det = ""
+            if ok:
+                def ind_parts(c):
+                    x = [y for y in walk(c) if y["k"] in ("CXXConstructExpr", "CXXTemporaryObjectExpr") and "IndicatorConstraint" in (y.get("ct") or "") and len(kids(y)) >= 3][0]
+                    b, v = nt(render(kids(x)[0])), cv(kids(x)[1])
+                    rh = [affine(z) for y in walk(kids(x)[2]) for z in kids(y) if z is not None and z.get("ct") == "double" and y["k"] in ("InitListExpr", "CXXConstructExpr", "CXXTemporaryObjectExpr")]
+                    return b, v, rh
+                bl, vl, rl = ind_parts(lo[0])
+                bh, vh, rh_ = ind_parts(hi[0])
+                ok = bl == "newvars[0]" and bh == "newvars[1]" and vl == 1 and vh == 1 and \
+                    any(aff_eq(r, {"con.rhs()": 1.0, "cmpEps": -1.0}) for r in rl) and any(aff_eq(r, {"con.rhs()": 1.0, "cmpEps": 1.0}) for r in rh_)
+                gt = nt(render(call_args(ge[0])[0]))
+                ok = ok and re.search(r"\(1,1,1\)", gt) is not None and re.search(r"newvars\),1,?\)$", gt) is not None
+                det = "lo=%s hi=%s ge=%s" % ((bl, vl, rl), (bh, vh, rh_), gt)
+                pb = [c for c in f.walk() if c["k"] == "CXXMemberCallExpr" and c.get("callee", "").endswith("::push_back") and nt(render(call_object(c))) == "newvars"]
+                ok = ok and len(pb) == 1 and nt(render(call_args(pb[0])[0])) == "res" and f.cfg.before(pb[0], ge[0])
+                ce = [v for v in f.walk() if v["k"] == "VarDecl" and v.get("name") == "cmpEps"]
+                ok = ok and len(ce) == 1 and "ComparisonEps(" in render(ce[0])
+            k1.check(ok, "eq|%s|neg" % body, short_loc(f.loc), "negative: b1 + b2 + result >= 1, b1==1 => body <= rhs - eps, b2==1 => body >= rhs + eps", det)
+
+
+def rule_M1(rep, funcs):
+    m1 = rep.rule("C01.M1", "FLOW", "big-M: bound of the same body, infinite bound replaced by cvt:bigM or refused, coefficient/rhs affine forms per binary value", floor=7)
+
+    def one(qn):
+        c = [f for f in funcs if f.qn == qn]
+        if len(c) != 1:
+            raise AnalysisBroken("C01.M1: %s: %d definitions" % (qn, len(c)))
+        return c[0]
+    for side, cls, helper, bnd, bname, msign in (("LE", "IndicatorLinLEConverter_MIP", "ConvertImplicationLE", "ub", "body_ub", 1),
+                                                 ("GE", "IndicatorLinGEConverter_MIP", "ConvertImplicationGE", "lb", "body_lb", -1)):
+        f = one("mp::%s::Convert" % cls)
+        calls = [c for c in f.walk() if c["k"] == "CXXMemberCallExpr" and c.get("callee", "").endswith("::" + helper)]
+        inits = {v["name"]: nt(render(kids(v)[0])) for v in f.walk() if v["k"] == "VarDecl" and kids(v)}
+        ok = len(calls) == 1 and [nt(render(a)) for a in call_args(calls[0])] == ["binvar", "indc.get_binary_value()", "bnds.%s()" % bnd, "indc.get_constraint()"] and \
+            inits.get("binvar") == "indc.get_binary_var()" and inits.get("bnds") == "GetMC().ComputeBoundsAndType(indc.get_constraint().GetBody())"
+        m1.check(ok, "%s|bound-of-same-body" % side, short_loc(f.loc), "%s: M from the %s of the body of the same constraint, binary and value of the same indicator" % (side, bnd),
+                 "call %s, locals %s" % ([[nt(render(a)) for a in call_args(c)] for c in calls], inits))
+        h = one("mp::%s::%s" % (cls, helper))
+        add = [c for c in h.walk() if c["k"] == "CXXMemberCallExpr" and c.get("callee", "").endswith("::AddConstraint")]
+        terms = [c for c in h.walk() if c["k"] == "CXXMemberCallExpr" and c.get("callee", "").endswith("::add_term")]
+        setr = [c for c in h.walk() if c["k"] == "CXXMemberCallExpr" and c.get("callee", "").endswith("::set_rhs")]
+        okb = len(add) == 1 and len(terms) == 2
+        det = []
+        if okb:
+            for t in terms:
+                fa = dict(nfacts(h, t))
+                v0 = fa.get("0==val", None)
+                if v0 is None and "val==0" in fa:
+                    v0 = fa["val==0"]
+                if v0 is None and "1==val" in fa:
+                    v0 = not fa["1==val"]
+                a = call_args(t)
+                co = affine(a[0])
+                okv = nt(render(a[1])) == "b" and nt(render(call_object(t))) == "con.GetBody()"
+                if v0 is True:
+                    okt = aff_eq(co, {bname: -1.0, "con.rhs()": 1.0}) and not any(h.cfg.before(t, s) or h.cfg.before(s, t) for s in setr if dict(nfacts(h, s)).get("0==val") is True)
+                    okt = okt and not [s for s in setr if dict(nfacts(h, s)).get("0==val") is True]
+                elif v0 is False:
+                    ss = [s for s in setr if dict(nfacts(h, s)).get("0==val") is False]
+                    okt = aff_eq(co, {bname: 1.0, "con.rhs()": -1.0}) and len(ss) == 1 and nt(render(call_args(ss[0])[0])) == bname and h.cfg.before(t, ss[0])
+                else:
+                    okt = False
+                det.append((v0, co, okt, okv))
+                okb = okb and okt and okv and h.cfg.before(t, add[0])
+            fa = dict(nfacts(h, add[0]))
+            okb = okb and fa.get("%s!=con.rhs()" % bname) is True and nt(render(call_args(add[0])[0])) == "con"
+        m1.check(okb, "%s|coefficients" % side, short_loc(h.loc),
+                 "%s: value 0: body + (rhs - %s)*b (sense) rhs;  value 1: body + (%s - rhs)*b (sense) %s (term added before the rhs is replaced)" % (side, bname, bname, bname),
+                 "%s: big-M terms %s" % (side, det))
+        # infinite bound
+        thr = [t for t in h.walk() if t["k"] == "CXXThrowExpr"]
+        asg = [n for n in h.walk() if n["k"] == "BinaryOperator" and n.get("op") == "=" and nt(render(kids(n)[0])) == bname]
+        inf_atom = "%s>=GetMC().PracticallyInf()" % bname if side == "LE" else "%s<=GetMC().PracticallyMinusInf()" % bname
+        oki = len(thr) == 1 and len(asg) == 1 and aff_eq(affine(kids(asg[0])[1]), {"GetMC().bigMDefault()": float(msign)})
+        if oki:
+            fa = dict(nfacts(h, thr[0]))
+            cmpop = "<=0" if side == "LE" else ">=0"
+            oki = fa.get(inf_atom) is True and any(bname in t and "bigMDefault()" in t and t.endswith(cmpop) and p for t, p in fa.items()) and "ConstraintConversionFailure" in render(thr[0])
+            oki = oki and dict(nfacts(h, asg[0])).get(inf_atom) is True
+        m1.check(oki, "%s|infinite-bound" % side, short_loc(h.loc), "%s: an infinite bound is replaced by %scvt:bigM, and the conversion is refused (ConstraintConversionFailure) when that is not positive" %
+                 (side, "" if side == "LE" else "-"), "throws %d, assignments %s" % (len(thr), [nt(render(a)) for a in asg]))
+    f = one("mp::IndicatorLinEQConverter_MIP::Convert")
+    calls = [c for c in f.walk() if c["k"] == "CXXMemberCallExpr" and c.get("callee", "").endswith("::ConvertImplicationLE")]
+    neg = [c for c in f.walk() if c["k"] == "CXXMemberCallExpr" and c.get("callee", "").endswith("::negate") and nt(render(call_object(c))) == "con"]
+    nb = [c for c in f.walk() if c["k"] == "CXXMemberCallExpr" and c.get("callee", "").endswith("::NegateBounds") and nt(render(call_object(c))) == "bnds"]
+    ok = len(calls) == 2 and len(neg) == 1 and len(nb) == 1
+    if ok:
+        calls.sort(key=lambda c: 0 if f.cfg.before(c, neg[0]) else 1)
+        a0, a1 = [[nt(render(a)) for a in call_args(c)] for c in calls]
+        ok = a0[:3] == ["binvar", "indc.get_binary_value()", "bnds.ub()"] and a1[:3] == a0[:3] and a0[3] == "con" and "con" in a1[3] and \
+            f.cfg.before(calls[0], neg[0]) and f.cfg.before(neg[0], calls[1]) and f.cfg.before(calls[0], nb[0]) and f.cfg.before(nb[0], calls[1])
+        inits = {v["name"]: nt(render(kids(v)[0])) for v in f.walk() if v["k"] == "VarDecl" and kids(v)}
+        ok = ok and inits.get("bnds") == "GetMC().ComputeBoundsAndType(indc.get_constraint().GetBody())" and \
+            re.search(r"indc\.get_constraint\(\)\.GetBody\(\),indc\.get_constraint\(\)\.rhs\(\)", inits.get("con", "")) is not None
+    m1.check(ok, "EQ|two-sides", short_loc(f.loc), "EQ: <= with the upper bound, then the negated constraint with the negated bounds")
+    nt_ = [g for g in funcs if g.qn in ("mp::AlgebraicConstraint::negate", "mp::PreprocessInfo::NegateBounds")]
+
+
+# ---------------------------------------------------------------------------------------------------
+# P2 every conversion adds something
+# ---------------------------------------------------------------------------------------------------
+ADDERS = {"AddConstraint", "AddConstraint_AS_ROOT", "AssignResult2Args", "AssignResultVar2Args", "RedefineVariable", "NarrowVarBounds", "FixAsTrue",
+          "AddVar", "AddVars_returnIds", "PropagateResultOfInitExpr", "AddQuadraticConstraint", "set_var_lb", "set_var_ub",
+          "AddWarning"}
+ADDERS.discard("AddWarning")
+
+
+class AddPaths:
+    """structured path enumeration: does every normally ending path execute an adding call?"""
+
+    def __init__(self, f, is_add_call):
+        self.f = f
+        self.is_add = is_add_call
+        self.ends = []        # (conds, added, how)
+        self.budget = 4000
+
+    def run(self):
+        self.stmt(self.f.body, [], False, lambda c, a: self.ends.append((c, a, "end")))
+        return self.ends
+
+    def atoms(self, c, pol):
+        c = strip(c)
+        while c["k"] == "UnaryOperator" and c.get("op") == "!":
+            pol = not pol
+            c = strip(kids(c)[0])
+        if c["k"] == "BinaryOperator" and ((c.get("op") == "&&" and pol) or (c.get("op") == "||" and not pol)):
+            return self.atoms(kids(c)[0], pol) + self.atoms(kids(c)[1], pol)
+        return [(nt(render(c)), pol)]
+
+    def expr_adds(self, e):
+        for x in walk(e):
+            if x["k"] in ("CXXMemberCallExpr", "CallExpr", "CXXOperatorCallExpr") and self.is_add(x):
+                return True
+        return False
+
+    def stmt(self, s, conds, added, k):
+        self.budget -= 1
+        if self.budget < 0:
+            raise AnalysisBroken("C01.P2: path budget exceeded in %s" % self.f.full[:100])
+        if s is None:
+            return k(conds, added)
+        kind = s["k"]
+        if kind == "CompoundStmt":
+            items = [x for x in s.get("c", []) if x is not None]
+
+            def seq(i, c, a):
+                if i == len(items):
+                    return k(c, a)
+                return self.stmt(items[i], c, a, lambda c2, a2: seq(i + 1, c2, a2))
+            return seq(0, conds, added)
+        if kind == "IfStmt":
+            real = [x for x in s.get("c", []) if x is not None]
+            # `if (init; cond)` is not used in the converters
+            cnd, then = real[0], real[1]
+            els = real[2] if len(real) > 2 else None
+            val = cv(cnd)
+            a0 = added or self.expr_adds(cnd)
+            if val is None or val:
+                self.stmt(then, conds + (self.atoms(cnd, True) if val is None else []), a0, k)
+            if val is None or not val:
+                self.stmt(els, conds + (self.atoms(cnd, False) if val is None else []), a0, k)
+            return
+        if kind in ("ForStmt", "CXXForRangeStmt", "WhileStmt", "DoStmt"):
+            ch = [x for x in s.get("c", []) if x is not None]
+            body = ch[-1] if kind != "DoStmt" else ch[0]
+            a0 = added or any(self.expr_adds(x) for x in ch if x is not body)
+            # one iteration (argument lists are assumed non-empty)
+            return self.stmt(body, conds, a0, k)
+        if kind == "ReturnStmt":
+            a0 = added or (bool(kids(s)) and self.expr_adds(kids(s)[0]))
+            self.ends.append((conds, a0, "return"))
+            return
+        if kind == "CXXTryStmt":
+            return self.stmt(kids(s)[0], conds, added, k)
+        if kind in ("BreakStmt", "ContinueStmt"):
+            return k(conds, added)
+        if any(x["k"] == "CXXThrowExpr" for x in walk(s)) and kind in ("CXXThrowExpr", "ExprWithCleanups", "CallExpr", "CXXMemberCallExpr"):
+            th = [x for x in walk(s) if x["k"] == "CXXThrowExpr"]
+            if th and (kind == "CXXThrowExpr" or strip(kids(s)[0] if kids(s) else s)["k"] == "CXXThrowExpr"):
+                self.ends.append((conds, True, "throw"))
+                return
+        if kind == "SwitchStmt":
+            secs = switch_sections(s)
+            for lab, sec in secs.items():
+                self.stmt({"k": "CompoundStmt", "c": [x for x in sec if x["k"] != "BreakStmt"], "i": -1}, conds + [("case %s" % lab, True)], added, k)
+            return
+        return k(conds, added or self.expr_adds(s))
+
+
+# paths on which a conversion legitimately adds nothing: (function regex, predicate over path atoms, reason)
+def _has(conds, *want):
+    d = {}
+    for t, p in conds:
+        d.setdefault(t, p)
+    return all(d.get(t) is p for t, p in want)
+
+
+P2_EXCEPTIONS = [
+    (r"CondEQConverter_MIP<.*>::ConvertCtxPos", lambda c: _has(c, ("con.empty()", True), ("fabs(con.rhs())!=0", False)),
+     "empty body and rhs 0: the equality is identically true, result==1 implies nothing"),
+    (r"CondEQConverter_MIP<.*>::ConvertCtxPos", lambda c: _has(c, ("GetMC().is_fixed(res)", True), ("GetMC().fixed_value(res)", False)),
+     "result fixed to 0: the positive direction (result==1 => ...) is vacuous"),
+    (r"CondEQConverter_MIP<.*>::ConvertCtxNeg", lambda c: _has(c, ("con.empty()", True), ("fabs(con.rhs())==0", False)),
+     "empty body and rhs != 0: the equality is identically false, result==0 => not(equality) is vacuous"),
+    (r"CondEQConverter_MIP<.*>::ConvertCtxNeg", lambda c: _has(c, ("con.empty()", False), ("!GetMC().is_fixed(res)||!GetMC().fixed_value(res)", False)) or
+        _has(c, ("con.empty()", False), ("GetMC().is_fixed(res)", True), ("GetMC().fixed_value(res)", True)),
+     "result fixed to 1: the negative direction (result==0 => ...) is vacuous"),
+    (r"CondEQConverter_MIP<.*>::Convert$", lambda c: any(t.startswith("1<args.size()") and not p for t, p in c) and any("IfMightUseEqualityEncodingForVar" in t and not p for t, p in c) or
+        any("IfMightUseEqualityEncodingForVar" in t for t, p in c),
+     "single-variable equality on a variable with unary encoding: the flags and their linking constraints are created by the encoding (ConvertEqVarConstMaps)"),
+    (r"Cond_LE_LT_GT_GE_Converter_MIP<.*>::ConvertCondIneq", lambda c: _has(c, ("con.empty()", True)) and any(">0" in t and not p for t, p in c),
+     "empty body and the constant comparison holds: nothing to enforce"),
+    (r"Cond_LE_LT_GT_GE_Converter_MIP<.*>::ConvertCondIneq", lambda c: _has(c, ("con.empty()", False), ("GetMC().is_fixed(res)", True), ("value==GetMC().fixed_value(res)", False)),
+     "result fixed to the other value: this direction is vacuous"),
+    (r"IndicatorLin(LE|GE)Converter_MIP<.*>::ConvertImplication(LE|GE)", lambda c: any(re.fullmatch(r"body_[ul]b!=con\.rhs\(\)", t) and not p for t, p in c),
+     "the bound of the body equals the right-hand side: the inequality holds for every point of the domain"),
+]
+P2_EXCEPTIONS += [
+    (r"BasicFuncConstrCvt<.*>::Convert<", lambda c: any("HasNegative()" in t and not p for t, p in c) and any("HasPositive()" in t and not p for t, p in c),
+     "neither direction needed: the context lacks it or the bound of the result already implies it (C01.D1 checks the guards)"),
+    (r"RangeConstraintConverter<.*>::ConvertWithRhs", lambda c: _has(c, ("rr[1]&&!rr[2]", False), ("!rr[1]&&rr[2]", False), ("rr[1]&&rr[2]", False)),
+     "both bounds infinite: the range constraint is free"),
+]
+
+
+def rule_P2(rep, funcs):
+    p2 = rep.rule("C01.P2", "PATH", "every normally ending path of an installed conversion adds to the model, except where its conditions say that nothing is needed", floor=60)
+    byfull = {}
+    for f in funcs:
+        byfull.setdefault(f.full, f)
+    memo = {}
+    used_exc = set()
+
+    def excepted(f, conds):
+        for i, (pat, pred, why) in enumerate(P2_EXCEPTIONS):
+            if re.search(pat, f.full) and pred(conds):
+                used_exc.add(i)
+                return why
+        return None
+
+    def const_return(g):
+        """constant returned by every return statement of g (None if not constant)"""
+        vals = set()
+        for r in g.walk():
+            if r["k"] == "ReturnStmt":
+                vals.add(cv(kids(r)[0]) if kids(r) else "void")
+        if len(vals) == 1 and None not in vals and "void" not in vals:
+            return vals.pop()
+        return None
+
+    class AP(AddPaths):
+        def atoms(self, c, pol):
+            return AddPaths.atoms(self, c, pol)
+
+        def stmt(self, s, conds, added, k):
+            if s is not None and s["k"] == "IfStmt":
+                real = [x for x in s.get("c", []) if x is not None]
+                c0 = strip(real[0])
+                if c0["k"] == "CXXMemberCallExpr" and byfull.get(c0.get("calleeFull") or "") is not None:
+                    val = const_return(byfull[c0["calleeFull"]])
+                    if val is not None:
+                        br = real[1] if val else (real[2] if len(real) > 2 else None)
+                        return AddPaths.stmt(self, br, conds, added or self.expr_adds(c0), k)
+            return AddPaths.stmt(self, s, conds, added, k)
+
+    def bad_paths(f):
+        if f.full in memo:
+            return memo[f.full]
+        memo[f.full] = []
+
+        def is_add(x):
+            nm = (x.get("callee") or "").split("::")[-1]
+            if nm in ADDERS:
+                return True
+            g = byfull.get(x.get("calleeFull") or "")
+            if g is not None and g is not f and re.search(r"(Converter|Cvt)", g.qn):
+                return not bad_paths(g)
+            return False
+        ends = AP(f, is_add).run()
+        bad = [(c, h) for c, a, h in ends if not a and not excepted(f, c)]
+        memo[f.full] = bad
+        return bad
+    n = 0
+    for f in sorted(funcs, key=lambda g: g.full):
+        if not re.search(r"::(Convert|ConvertCtxPos|ConvertCtxNeg)$", f.qn):
+            continue
+        if f.qn.startswith(("mp::FlatConverter", "mp::MIPFlatConverter", "mp::ProblemFlattener", "mp::ExprConverter")):
+            continue
+        if f.qn.startswith("mp::BasicFuncConstrCvt::ConvertCtx"):
+            continue          # the 'not implemented' stubs raise (a diagnostic)
+        n += 1
+        bad = bad_paths(f)
+        cls = f.qn.split("::")[1]
+        m = re.search(r"([A-Za-z_0-9]+)ConstraintId", f.full)
+        t = m.group(1) if m else re.sub(r"mp::|std::", "", (f.params[0].get("ct") if f.params else "") or "")[:60]
+        key = "%s::%s|%s" % (cls, f.name, t)
+        if len([1 for g in funcs if g.qn == f.qn]) > 1:
+            key += "|" + hashlib.md5(f.full.encode()).hexdigest()[:6]
+        p2.check(not bad, key, short_loc(f.loc), "%s::%s adds to the model on every normally ending path (exceptions: conditions that make the relation vacuous)" % (cls, f.name),
+                 "%s::%s can return without adding anything on the path [%s]: the converted constraint is marked as reformulated and its relation disappears from the delivered model" %
+                 (cls, f.name, ", ".join(("" if p else "not ") + t for t, p in (bad[0][0] if bad else []))))
+    if n < 40:
+        raise AnalysisBroken("C01.P2: only %d conversion entry points" % n)
+    rep.extra["p2_exceptions_used"] = sorted(P2_EXCEPTIONS[i][2] for i in used_exc)
